@@ -44,7 +44,7 @@ def new_records(draw, records, delimiter):
     def fresh(side):
         pool = [x for x in (FRESH_P if side == "prefix" else FRESH_U) if (delimiter not in x or side != "prefix")] or ["x"]
         if draw(st.integers(0, 3)) == 0:
-            return draw(st.text(st.sampled_from(alpha if side == "prefix" else S.URI_ALPHA), min_size=0, max_size=3))
+            return draw(S.txt(alpha if side == "prefix" else S.URI_ALPHA, min_size=0, max_size=3))
         return draw(st.sampled_from(pool))
 
     def of(r, side):
